@@ -2,4 +2,4 @@
 # independent re-check of every compiled property file (and all it depends on) with coqchk; prints the axiom summary
 cd /verif/coq || exit 2
 make -f Makefile.coq -j8 >/dev/null 2>&1
-coqchk -silent -o -R . SV $(ls Props/*.vo | sed 's/\.vo$//; s#/#.#; s/^/SV./') 2>&1 | grep -v conda
+coqchk -silent -o -R . SV $(ls Props/*.vo Gen/Tie*.vo 2>/dev/null | sed 's/\.vo$//; s#/#.#; s/^/SV./') 2>&1 | grep -v conda
